@@ -1462,6 +1462,18 @@ func (d *Data) moveElementInLabels(ctx *datastore.VersionedCtx, batch storage.Ba
 		return err
 	}
 	if oldLabel == newLabel {
+		if oldLabel == 0 {
+			return nil
+		}
+		// same label: no change in membership or counts, but the denormalized element must follow the move
+		tk := NewLabelTKey(oldLabel)
+		elems, err := getElementsNR(ctx, tk)
+		if err != nil {
+			return fmt.Errorf("err getting elements for label %d: %v", oldLabel, err)
+		}
+		if _, changed := elems.move(from, to, false); changed {
+			return putBatchElements(batch, tk, elems)
+		}
 		return nil
 	}
 
